@@ -106,30 +106,7 @@ def run(ck: Checker):
             probs.append(f'with fail_fast on and this member failed, the emit at L{en.lineno} can deliver `{norm_text(payload)[:30]}` — a "successful" result that contains the member\'s RemoteException — instead of an EnsembleError')
     ck.ob('C04-6', f, sn.ast, not probs, '; '.join(probs) if probs else f'under fail_fast a failed member always leads to RemoteException(EnsembleError) at every reachable emit ({len(emits)} emit sites examined)')
     check_routing_sinks(ck, 'C04-3')
-    f = mod.func('Worker._start_single.get_input')
-    cfg, sc, g = guard_cfg(ck, f)
-    for n in cfg.nodes:
-        if n.extra.get('yield'):
-            yv = [k.value for k in walk_shallow(n.ast) if isinstance(k, ast.Yield)][0]
-            v = yv.elts[0] if isinstance(yv, ast.List) and len(yv.elts) == 1 else yv
-            if isinstance(v, ast.Name):
-                clean_value(ck, 'C04-3', f, cfg, g, n, v.id, 'input handed to Worker.call')
-        a = header_expr(n)
-        for c in (calls_in(a) if a is not None else []):
-            if dotted(c.func) == 'preprocess' and c.args and isinstance(c.args[0], ast.Name):
-                clean_value(ck, 'C04-3', f, cfg, g, n, c.args[0].id, 'value handed to the user\'s preprocess()')
-    f = mod.func('Worker._build_input_batches')
-    cfg, sc, g = guard_cfg(ck, f)
-    for n in cfg.nodes:
-        a = header_expr(n)
-        if a is None:
-            continue
-        for c in calls_in(a):
-            r, me = method_of(c)
-            if me == 'put' and r is not None and sc.canon(r) == 'self._batch_buffer' and c.args and isinstance(c.args[0], ast.Tuple) and isinstance(c.args[0].elts[1], ast.Name):
-                clean_value(ck, 'C04-3', f, cfg, g, n, c.args[0].elts[1].id, 'input handed to a batch')
-            if dotted(c.func) == 'preprocess' and c.args and isinstance(c.args[0], ast.Name):
-                clean_value(ck, 'C04-3', f, cfg, g, n, c.args[0].id, 'value handed to the user\'s preprocess()')
+    check_worker_short_circuit(ck, 'C04-3')
     # ------------------------------------------------------------------ C04-7
     ck.rule('C04-7', 'member errors keep their identity across hops: RemoteException re-wraps every exception member of every EnsembleError it is given (the guard is not narrower than `isinstance(exc, EnsembleError)` / `isinstance(member, BaseException)`)')
     from . import c15
@@ -464,3 +441,33 @@ def check_all_wrapping(ck: Checker, rid: str):
     check_wrapping(ck, rid, smod.func('SwitchServlet._enqueue'), out_q={'self._qout'})
     for f_ in (mod.func('Worker._start_single'), mod.func('Worker._start_single.get_input'), mod.func('Worker._start_batch'), mod.func('Worker._build_input_batches'), smod.func('EnsembleServlet._enqueue'), smod.func('EnsembleServlet._dequeue'), smod.func('SwitchServlet._enqueue')):
         check_wrap_arguments(ck, rid, f_)
+
+
+def check_worker_short_circuit(ck: Checker, rid: str):
+    """What reaches the user's preprocess / call -- singly or as an element of a batch -- is a genuine input: an upstream
+    failure (exception value or its RemoteException wrapper) goes to the output queue and skips the stage."""
+    mod = ck.repo.module(WORKER)
+    f = mod.func('Worker._start_single.get_input')
+    cfg, sc, g = guard_cfg(ck, f)
+    for n in cfg.nodes:
+        if n.extra.get('yield'):
+            yv = [k.value for k in walk_shallow(n.ast) if isinstance(k, ast.Yield)][0]
+            v = yv.elts[0] if isinstance(yv, ast.List) and len(yv.elts) == 1 else yv
+            if isinstance(v, ast.Name):
+                clean_value(ck, rid, f, cfg, g, n, v.id, 'input handed to Worker.call')
+        a = header_expr(n)
+        for c in (calls_in(a) if a is not None else []):
+            if dotted(c.func) == 'preprocess' and c.args and isinstance(c.args[0], ast.Name):
+                clean_value(ck, rid, f, cfg, g, n, c.args[0].id, 'value handed to the user\'s preprocess()')
+    f = mod.func('Worker._build_input_batches')
+    cfg, sc, g = guard_cfg(ck, f)
+    for n in cfg.nodes:
+        a = header_expr(n)
+        if a is None:
+            continue
+        for c in calls_in(a):
+            r, me = method_of(c)
+            if me == 'put' and r is not None and sc.canon(r) == 'self._batch_buffer' and c.args and isinstance(c.args[0], ast.Tuple) and isinstance(c.args[0].elts[1], ast.Name):
+                clean_value(ck, rid, f, cfg, g, n, c.args[0].elts[1].id, 'input handed to a batch')
+            if dotted(c.func) == 'preprocess' and c.args and isinstance(c.args[0], ast.Name):
+                clean_value(ck, rid, f, cfg, g, n, c.args[0].id, 'value handed to the user\'s preprocess()')
